@@ -1,3 +1,4 @@
--- This module serves as the root of the `SpecVerif` library.
--- Import modules here that should be built as part of the library.
-import SpecVerif.Basic
+-- Root of the `SpecVerif` library: `lake build` (MANIFEST.setup_cmd) builds everything imported here.
+import SpecVerif.Audit
+import SpecVerif.Model.Py
+import SpecVerif.Props.C13
